@@ -357,6 +357,15 @@ impl SubCheck for Bin {
         if !td_in_range(a - b) {
             expect_panic("-= on overflow", || { let mut x = da; x -= db; x })?;
         }
+        // an operand that survives a failed assignment (caught panic) is still a value of the range
+        for sub in [false, true] {
+            if td_in_range(if sub { a - b } else { a + b }) { continue; }
+            let mut left = da;
+            let r = guard(std::panic::AssertUnwindSafe(|| if sub { left -= db } else { left += db }));
+            ensure!(r.is_err(), "assign operator on overflow did not fail");
+            let v = left.num_seconds() as i128 * NS + left.subsec_nanos() as i128;
+            ensure!(td_in_range(v), "after a failed {} the left operand holds {v} ns, outside the range", if sub { "-=" } else { "+=" });
+        }
         Ok(())
     }
 }
